@@ -1,0 +1,28 @@
+// Copyright (c) The Bitcoin Core developers
+// Distributed under the MIT software license, see the accompanying
+// file COPYING or http://www.opensource.org/licenses/mit-license.php.
+
+#ifndef BITCOIN_UTIL_VERIF_HOOKS_H
+#define BITCOIN_UTIL_VERIF_HOOKS_H
+
+// Verification instrumentation points. Compiled out entirely unless BITCOIN_VERIF is defined.
+// With BITCOIN_VERIF, VERIF_POINT(tag) calls a process-global callback if one is installed
+// (one relaxed atomic load otherwise). The callback must not touch the state of the caller.
+
+#ifdef BITCOIN_VERIF
+#include <atomic>
+
+namespace verif {
+using PointFn = void (*)(const char* tag);
+inline std::atomic<PointFn> g_point_fn{nullptr};
+inline void Point(const char* tag) noexcept
+{
+    if (PointFn fn = g_point_fn.load(std::memory_order_relaxed)) fn(tag);
+}
+} // namespace verif
+#define VERIF_POINT(tag) ::verif::Point(tag)
+#else
+#define VERIF_POINT(tag) ((void)0)
+#endif
+
+#endif // BITCOIN_UTIL_VERIF_HOOKS_H
